@@ -89,6 +89,8 @@ L2 == <<5, 0>>
 L3 == <<5, 0, 2>>
 L3b == <<0, 2, 5>>
 L4 == <<2, 7, 0, 5>>
-IdListsQ == {L1, L2, L3, L4}
-IdListsT == {L1, L2, L3, L3b, L4}
+L2p == <<1, 0>>          \* permutations of the dense range 0..n-1 (a lookup that is 'almost the identity')
+L3p == <<2, 0, 1>>
+IdListsQ == {L1, L2, L2p, L3, L3p, L4}
+IdListsT == {L1, L2, L2p, L3, L3b, L3p, L4}
 ====
